@@ -229,8 +229,8 @@ def step (st : WSt) (ws : List String) : Option (WSt × String) :=
       let c := c.deliverAll
       let stOut := { stClean with w := c.w }
       some (stOut, render st.w stOut c { actor := sid, op := kind })
-  | "hubstep" :: _ =>
-    let c := ({ w := st.w } : Ctx).hubStep.deliverAll
+  | "hubstep" :: rest =>
+    let c := (({ w := st.w } : Ctx).hubStep (rest.head? = some "yield")).deliverAll
     let stOut := { st with w := c.w, snap := none }
     some (stOut, render st.w stOut c)
   | "tstep" :: t :: q :: _ =>
@@ -245,6 +245,8 @@ def step (st : WSt) (ws : List String) : Option (WSt × String) :=
     some (stOut, render st.w stOut c)
   | "userstate" :: u :: rest =>
     if st.w.anythingHeld then some (st, "pending") else
+    -- replyUpdateUser reads the account first: the state of an account which is not there (any more) cannot be changed
+    if (st.w.user? u).isNone then some (st, "nouser") else
     let c : Ctx := { w := st.w }
     let c := (c.opUserState u (rest.head? = some "susp")).deliverRouted
     let pre := st.w
